@@ -36,11 +36,13 @@ import (
 	"encoding/json"
 	"fmt"
 	"math"
+	"net/http"
 	"os"
 	"path/filepath"
 	"reflect"
 	"sort"
 	"strings"
+	"syscall"
 	"time"
 
 	"github.com/spf13/viper"
@@ -96,6 +98,9 @@ func c16Persistent(tag string) bool {
 type c16Item struct {
 	tag   string
 	state interface{}
+	// rejected: the update was published by a Configure… request that the server refused
+	// (it publishes, and therefore saves, the arguments all the same)
+	rejected bool
 }
 
 func (it c16Item) String() string {
@@ -207,7 +212,18 @@ func c16Duration() time.Duration {
 }
 
 func c16Unwrap() AbacoUnwrapOptions {
-	return AbacoUnwrapOptions{RescaleRaw: c16Bool(), Unwrap: c16Bool(), Bias: c16Bool(), ResetAfter: c16Int(), PulseSign: c16Int(), InvertChan: c16Ints(4)}
+	u := AbacoUnwrapOptions{RescaleRaw: c16Bool(), Unwrap: c16Bool(), Bias: c16Bool(), ResetAfter: c16Int(), PulseSign: c16Int(), InvertChan: c16Ints(4)}
+	switch simrt.Draw(4) {
+	case 1: // unwrapping off, everything else left at zero: legal, and indistinguishable from "not set"
+		u = AbacoUnwrapOptions{RescaleRaw: c16Bool()}
+	case 2:
+		u.ResetAfter = 0
+		u.Unwrap = false
+	}
+	if u.Unwrap && !u.RescaleRaw && simrt.Draw(4) != 3 {
+		u.RescaleRaw = true // the combination the server refuses stays rare
+	}
+	return u
 }
 
 func c16TriggerState() TriggerState {
@@ -264,18 +280,66 @@ func c16Trigger() []FullTriggerState {
 func c16Value(tag string) interface{} {
 	switch tag {
 	case "TRIANGLE":
-		return &TriangleSourceConfig{Nchan: c16Int(), SampleRate: c16Float(), Min: RawType(c16Int()), Max: RawType(c16Int())}
+		// what TriangleSource.Configure accepts (at least one channel, Min <= Max, one ramp
+		// lasting at most four seconds); refused values are not generated because the next
+		// start-up panics on them by design
+		nch := []int{1, 2, 3, 8, 100, 4096, 65536, math.MaxInt32, 1 << 53}
+		rates := []float64{1000, 10000, 1e6, 123456.789, 250000, 1e5 / 3, 0.5, 50}
+		for try := 0; try < 4; try++ {
+			c := &TriangleSourceConfig{Nchan: nch[simrt.Draw(len(nch))], SampleRate: rates[simrt.Draw(len(rates))], Min: RawType(c16Int()), Max: RawType(c16Int())}
+			if c.Min > c.Max {
+				c.Min, c.Max = c.Max, c.Min
+			}
+			cp := *c
+			if NewTriangleSource().Configure(&cp) == nil {
+				return c
+			}
+		}
+		return &TriangleSourceConfig{Nchan: nch[simrt.Draw(len(nch))], SampleRate: 10000, Min: 0, Max: RawType(simrt.Draw(100))}
 	case "SIMPULSE":
-		return &SimPulseSourceConfig{Nchan: c16Int(), SampleRate: c16Float(), Pedestal: c16Float(), Amplitudes: c16Floats(4), Nsamp: c16Int()}
+		nch := []int{1, 2, 3, 8, 100, 4096, 65536, math.MaxInt32, 1 << 53}
+		rates := []float64{1000, 10000, 1e6, 123456.789, 250000, 1e5 / 3, 0.5, 50}
+		nsamp := []int{0, 1, 6, 100, 1000, 2000}
+		for try := 0; try < 4; try++ {
+			c := &SimPulseSourceConfig{Nchan: nch[simrt.Draw(len(nch))], SampleRate: rates[simrt.Draw(len(rates))], Pedestal: c16Float(), Amplitudes: c16Floats(4), Nsamp: nsamp[simrt.Draw(len(nsamp))]}
+			cp := *c
+			cp.Amplitudes = append([]float64(nil), c.Amplitudes...)
+			if NewSimPulseSource().Configure(&cp) == nil {
+				return c
+			}
+		}
+		return &SimPulseSourceConfig{Nchan: 1 + simrt.Draw(8), SampleRate: 10000, Pedestal: 1000, Amplitudes: []float64{5000}, Nsamp: 100}
 	case "LANCERO":
-		return &LanceroSourceConfig{FiberMask: uint32(c16Int()), CardDelay: c16Ints(3), ActiveCards: c16Ints(3), ShouldAutoRestart: c16Bool(),
+		// accepted when ~/.cringe/cringeGlobals.json is readable and valid and no card is
+		// asked for (there is no card); the server overwrites DastardOutput either way
+		act := []int{}
+		if simrt.Draw(6) == 5 {
+			act = c16Ints(3)
+		}
+		return &LanceroSourceConfig{FiberMask: uint32(c16Int()), CardDelay: c16Ints(3), ActiveCards: act, ShouldAutoRestart: c16Bool(),
 			FirstRow: c16Int(), ChanSepCards: c16Int(), ChanSepColumns: c16Int(),
 			DastardOutput: LanceroDastardOutputJSON{Nsamp: c16Int(), ClockMHz: c16Int(), AvailableCards: c16Ints(3), Lsync: c16Int(), Settle: c16Int(),
 				SequenceLength: c16Int(), PropagationDelay: c16Int(), BAD16CardDelay: c16Int()}}
 	case "ABACO":
-		return &AbacoSourceConfig{ActiveCards: c16Ints(3), AvailableCards: c16Ints(3), HostPortUDP: c16Strs(3), AbacoUnwrapOptions: c16Unwrap()}
+		// accepted: valid unwrap options, no ring-buffer card (there is none), UDP sources
+		// given as numeric host:port (resolved without any I/O; nothing is bound before Start)
+		hp := []string{"127.0.0.1:4000", "0.0.0.0:5000", ":6000", "[::1]:4001", "10.1.2.3:65535", "127.0.0.1:4000"}
+		var hosts []string
+		for i, n := 0, simrt.Draw(4); i < n; i++ {
+			hosts = append(hosts, hp[simrt.Draw(len(hp))])
+		}
+		act := []int{}
+		if simrt.Draw(6) == 5 {
+			act = c16Ints(3)
+		}
+		return &AbacoSourceConfig{ActiveCards: act, AvailableCards: c16Ints(3), HostPortUDP: hosts, AbacoUnwrapOptions: c16Unwrap()}
 	case "ROACH":
-		return &RoachSourceConfig{HostPort: c16Strs(3), Rates: c16Floats(3), AbacoUnwrapOptions: c16Unwrap()}
+		// accepted: valid unwrap options and no device (a device is a bound UDP socket)
+		var rates []float64
+		if simrt.Draw(6) == 5 {
+			rates = c16Floats(2)
+		}
+		return &RoachSourceConfig{HostPort: []string{}, Rates: rates, AbacoUnwrapOptions: c16Unwrap()}
 	case "STATUS":
 		// record lengths the server can hold (ConfigurePulseLengths: npre >= 3, nsamp > npre)
 		npre := 3 + c16SmallInt(5)
@@ -502,10 +566,13 @@ type c16SaveObs struct {
 }
 
 type c16World struct {
-	env     *simrt.Env
-	startup func() error
-	seq     int     // directory counter
-	gen     *c16Gen // the live process, if any
+	env      *simrt.Env
+	startup  func() error
+	seq      int     // directory counter
+	gen      *c16Gen // the live process, if any
+	hsc      *SourceControl
+	soft     bool
+	softMiss string
 	// persist is the cumulative model: latest value of every configuration topic over
 	// all processes that saved into the directory under consideration.
 	nUnchanged, nTickerSaves, nTimerSaves int
@@ -519,17 +586,30 @@ type c16Gen struct {
 	aborted bool
 	exited  bool
 	base    map[string]interface{} // model of the directory's content when the process started
+	baseRej map[string]bool        // topics of base whose latest value the server had refused
 	fed     []c16Item              // regular items handed to the channel, in order
 	nPub    int                    // regular publications captured = regular items consumed
 	pubs    []c16Pub
 	replay  []c16Pub
 	inRep   bool
-	lastPub map[string]string // most recent publication per status topic of this process
-	anomaly string
-	fs      *c16FS
-	saves   []c16SaveObs
-	seen    int // saves already looked at by the harness
-	snaps   []c16Snap
+	// rpc: the process also runs the real RunRPCServer (start-up announcements, heartbeat);
+	// while starting (before the harness feeds anything) every publication is the server's own
+	rpc       bool
+	starting  bool
+	nForeign  int
+	nAll      int
+	announced map[string]string // what the server's start-up published, by topic
+	hsc       *SourceControl    // the harness's request object: source configurations are fed through the real Configure… methods
+	// one failing file-system operation (faulted configuration)
+	plan      *simrt.FaultFS
+	faultSeen bool
+	lastBytes []byte            // configuration file at the last look
+	lastPub   map[string]string // most recent publication per status topic of this process
+	anomaly   string
+	fs        *c16FS
+	saves     []c16SaveObs
+	seen      int // saves already looked at by the harness
+	snaps     []c16Snap
 	// change-timer book-keeping (probes only)
 	armedAt time.Time
 	startAt time.Time
@@ -539,6 +619,9 @@ type c16Snap struct {
 	bytes []byte
 	nPub  int
 	what  string
+	// after a save with a failed operation: the file before, and the saves since then
+	old  []byte
+	cand []int
 }
 
 func (w *c16World) newDir(name string) string {
@@ -586,6 +669,54 @@ func (w *c16World) startProcess(home string, base map[string]interface{}) *c16Ge
 	return g
 }
 
+// startServer makes the process a complete dastard: after setupViper and the updater, the
+// real RunRPCServer (as main calls it, non-blocking variant) restores every key from
+// viper, configures its sources with what it read, announces the restored state on
+// clientMessageChan and starts its heartbeat; its listener never accepts (simrt.NetListen).
+// Returns when the announcements have been published.
+func (g *c16Gen) startServer() {
+	g.rpc = true
+	g.starting = true
+	http.DefaultServeMux = http.NewServeMux() // RunRPCServer registers its handlers there, once per real process
+	RunRPCServer(Ports.RPC, false)
+	start := time.Now()
+	for {
+		n := g.nAll
+		time.Sleep(20 * time.Millisecond)
+		if len(clientMessageChan) == 0 && g.nAll == n && n > 0 {
+			break
+		}
+		if time.Since(start) > 20*time.Second {
+			simrt.Fail("C16.startup", "startup-announcements-not-published", "%d messages of the server's start-up were published within 20 s, %d are still queued", g.nAll, len(clientMessageChan))
+		}
+	}
+	g.checkAnomaly()
+	g.announced = map[string]string{}
+	for k, v := range g.lastPub {
+		g.announced[k] = v
+	}
+	g.starting = false
+	if b, err := c16RawRead(c16Main(g.home)); err == nil {
+		g.lastBytes = b
+	}
+	if g.w.hsc == nil {
+		g.w.hsc = NewSourceControl()
+	}
+	g.hsc = g.w.hsc
+	g.hsc.clientUpdates = clientMessageChan
+}
+
+// ioFault plans one failing operation on the configuration files of this process.
+func (g *c16Gen) ioFault() {
+	errs := []error{syscall.EIO, syscall.ENOSPC, syscall.EACCES}
+	g.plan = simrt.NewFaultFS("")
+	g.plan.FailMatch = "config."
+	g.plan.FailAt = simrt.DrawFault(30)
+	g.plan.FailErr = errs[simrt.DrawFault(len(errs))]
+	simrt.SetFS(g.plan)
+	g.w.env.Op("process plan: file-system operation number %d on the configuration files fails with %v", g.plan.FailAt, g.plan.FailErr)
+}
+
 func c16Bytes(p interface{}) [][]byte {
 	switch x := p.(type) {
 	case [][]byte:
@@ -609,8 +740,25 @@ func (g *c16Gen) capture(parts []interface{}) {
 		return
 	}
 	p := c16Pub{tag: string(frames[0]), body: string(frames[1]), step: simrt.Steps()}
+	g.nAll++
 	if g.inRep {
 		g.replay = append(g.replay, p)
+		return
+	}
+	g.notePub(p)
+}
+
+// notePub accounts for a publication that is not part of a SENDALL replay.
+func (g *c16Gen) notePub(p c16Pub) {
+	if g.starting || g.rpc && p.tag == "ALIVE" {
+		// the server's own announcement or heartbeat
+		g.nForeign++
+		if p.tag != "NEWDASTARD" {
+			if prev, had := g.lastPub[p.tag]; (!had || prev != p.body) && c16Persistent(p.tag) {
+				g.armedAt = time.Now()
+			}
+			g.lastPub[p.tag] = p.body
+		}
 		return
 	}
 	g.pubs = append(g.pubs, p)
@@ -649,6 +797,36 @@ func (g *c16Gen) feed(it c16Item) {
 		return
 	}
 	g.fed = append(g.fed, it)
+	idx := len(g.fed) - 1
+	if g.hsc != nil {
+		// source configurations go through the server's real request methods: they
+		// normalise the arguments, try to configure the source, and publish the arguments
+		// whether or not the source accepted them
+		var ok bool
+		var err error
+		done := true
+		switch a := it.state.(type) {
+		case *TriangleSourceConfig:
+			err = g.hsc.ConfigureTriangleSource(a, &ok)
+		case *SimPulseSourceConfig:
+			err = g.hsc.ConfigureSimPulseSource(a, &ok)
+		case *LanceroSourceConfig:
+			err = g.hsc.ConfigureLanceroSource(a, &ok)
+		case *AbacoSourceConfig:
+			err = g.hsc.ConfigureAbacoSource(a, &ok)
+		case *RoachSourceConfig:
+			err = g.hsc.ConfigureRoachSource(a, &ok)
+		default:
+			done = false
+		}
+		if done {
+			g.fed[idx].rejected = err != nil
+			if err != nil {
+				simrt.Hit("source-configuration-refused-but-published")
+			}
+			return
+		}
+	}
 	clientMessageChan <- ClientUpdate{tag: it.tag, state: it.state}
 }
 
@@ -680,31 +858,64 @@ func (g *c16Gen) sendAll() {
 	if g.exited {
 		return
 	}
-	want := g.topics()
 	g.replay = nil
 	g.inRep = true
 	clientMessageChan <- ClientUpdate{tag: "SENDALL", state: 0}
+	// The replay is published in one piece (one scheduler step of the updater). In a process
+	// with a server, heartbeats (ALIVE, alone in their step) may be published before or
+	// after it; such a process has announced at least six topics, so the replay is the first
+	// step with two or more publications.
+	minGroup := len(g.topics())
+	if g.rpc && minGroup > 2 {
+		minGroup = 2
+	}
+	replayAt := func() (int, int) { return replayAt0(g.replay, minGroup, g.rpc) }
 	start := time.Now()
-	for len(g.replay) < len(want) && time.Since(start) < 5*time.Second {
+	for time.Since(start) < 5*time.Second {
+		if from, _ := replayAt(); from >= 0 && len(clientMessageChan) == 0 {
+			break
+		}
+		if minGroup == 0 && len(clientMessageChan) == 0 && time.Since(start) > 100*time.Millisecond {
+			break
+		}
 		time.Sleep(5 * time.Millisecond)
-	}
-	for len(clientMessageChan) > 0 && time.Since(start) < 5*time.Second {
-		time.Sleep(5 * time.Millisecond)
-	}
-	if len(want) == 0 {
-		time.Sleep(100 * time.Millisecond)
 	}
 	g.inRep = false
+	win := g.replay
+	g.replay = nil
+	from, to := replayAt0(win, minGroup, g.rpc)
+	if from < 0 {
+		// no step looks like a complete replay: judge the largest one
+		from, to = len(win), len(win)
+		for i := 0; i < len(win); {
+			j := i
+			for j < len(win) && win[j].step == win[i].step {
+				j++
+			}
+			if j-i > to-from && !(g.rpc && j-i == 1 && win[i].tag == "ALIVE") {
+				from, to = i, j
+			}
+			i = j
+		}
+	}
+	for _, p := range win[:from] {
+		g.notePub(p) // heartbeats published before the replay
+	}
+	want := g.topics()
+	rep := win[from:to]
 	g.checkAnomaly()
 	simrt.Hit("sendall")
 	got := map[string][]string{}
-	for _, p := range g.replay {
+	for _, p := range rep {
 		got[p.tag] = append(got[p.tag], p.body)
+	}
+	if len(rep) == 0 && len(want) > 0 {
+		simrt.Fail("C16.sendall", "sendall-unanswered", "SENDALL was not answered within 5 s (%d topics published in this run; %d updates handed over, %d published; queue length %d)", len(want), len(g.fed), g.nPub, len(clientMessageChan))
 	}
 	for _, t := range want {
 		bodies := got[t]
 		if len(bodies) == 0 {
-			simrt.Fail("C16.sendall", "sendall-topic-missing", "after SENDALL no message for topic %s (published earlier in this run, last as %s); replay had %d messages for %d topics published", t, c16Short(g.lastPub[t]), len(g.replay), len(want))
+			simrt.Fail("C16.sendall", "sendall-topic-missing", "after SENDALL no message for topic %s (published earlier in this run, last as %s); replay had %d messages for %d topics published", t, c16Short(g.lastPub[t]), len(rep), len(want))
 		}
 		if len(bodies) > 1 {
 			simrt.Fail("C16.sendall", "sendall-topic-twice", "after SENDALL %d messages for topic %s", len(bodies), t)
@@ -718,9 +929,29 @@ func (g *c16Gen) sendAll() {
 			simrt.Fail("C16.sendall", "sendall-extra-topic", "after SENDALL a message with topic %q, which is not a status topic published in this run (published: %v)", t, want)
 		}
 	}
+	for _, p := range win[to:] {
+		g.notePub(p) // heartbeats published after the replay
+	}
+	g.checkAnomaly()
 	if len(want) >= 8 {
 		simrt.Hit("sendall-8-or-more-topics")
 	}
+}
+
+// replayAt0 finds the replay among the publications of a SENDALL window: the first
+// scheduler step with at least minGroup publications (see sendAll).
+func replayAt0(win []c16Pub, minGroup int, rpc bool) (int, int) {
+	for i := 0; i < len(win); {
+		j := i
+		for j < len(win) && win[j].step == win[i].step {
+			j++
+		}
+		if j-i >= minGroup && (!rpc || j-i >= 2 || win[i].tag != "ALIVE") {
+			return i, j
+		}
+		i = j
+	}
+	return -1, -1
 }
 
 func c16Short(s string) string {
@@ -744,13 +975,46 @@ func (g *c16Gen) look(what string) {
 			g.w.nTickerSaves++
 		}
 	}
+	var cand []int
+	for _, so := range g.saves[g.seen:] {
+		cand = append(cand, so.nPubAtBegin)
+	}
 	g.seen = len(g.saves)
 	last := g.saves[len(g.saves)-1]
 	b, err := c16RawRead(c16Main(g.home))
 	if err != nil {
-		simrt.Fail("C16.save-content", "config-missing-after-save", "after a completed save %s cannot be read: %v (directory: %v)", c16Main(g.home), err, c16RawList(c16Dot(g.home)))
+		simrt.Fail("C16.save-content", "config-missing-after-save", "after a save %s cannot be read: %v (directory: %v)", c16Main(g.home), err, c16RawList(c16Dot(g.home)))
 	}
-	g.snaps = append(g.snaps, c16Snap{bytes: b, nPub: last.nPubAtBegin, what: what})
+	sn := c16Snap{bytes: b, nPub: last.nPubAtBegin, what: what}
+	if g.plan != nil && g.plan.Fired && !g.faultSeen {
+		// one of these saves had a failing operation: the file is the one from before or
+		// the complete result of one of these saves
+		g.faultSeen = true
+		sn.old = g.lastBytes
+		sn.cand = cand
+		sn.what += fmt.Sprintf(" (operation %d, %q, failed)", g.plan.FailAt, c16FailedOp(g.plan))
+		simrt.Hit("save-with-failed-operation-observed")
+	}
+	g.lastBytes = b
+	g.snaps = append(g.snaps, sn)
+}
+
+// c16FailedOp names the operation the plan made fail.
+func c16FailedOp(plan *simrt.FaultFS) string {
+	n := 0
+	for _, l := range plan.Log {
+		if strings.Contains(l, plan.FailMatch) {
+			if n == plan.FailAt {
+				f := strings.Fields(l)
+				for i := 1; i < len(f); i++ {
+					f[i] = filepath.Base(f[i])
+				}
+				return strings.Join(f, " ")
+			}
+			n++
+		}
+	}
+	return "?"
 }
 
 // cleanup is deferred by the check bodies: however a run ends, the live updater is told
@@ -796,6 +1060,20 @@ func (g *c16Gen) modelAt(n int) map[string]interface{} {
 	return m
 }
 
+// rejAt tells which topics' latest value (after the first n updates) the server had refused.
+func (g *c16Gen) rejAt(n int) map[string]bool {
+	m := map[string]bool{}
+	for k, v := range g.baseRej {
+		m[k] = v
+	}
+	for _, it := range g.fed[:n] {
+		if it.tag != "NEWDASTARD" {
+			m[it.tag] = it.rejected
+		}
+	}
+	return m
+}
+
 // ---------------------------------------------------------------------------------
 // oracle 2
 
@@ -835,6 +1113,18 @@ func c16TriggerChans(model map[string]interface{}) int {
 }
 
 // checkRestored compares what the next start-up yields with the model.
+// fail reports a mismatch: a violation, or (soft mode: one of several admissible versions is
+// being tried) a note of the first mismatch.
+func (w *c16World) fail(rule, sig, format string, args ...interface{}) {
+	if w.soft {
+		if w.softMiss == "" {
+			w.softMiss = sig + ": " + fmt.Sprintf(format, args...)
+		}
+		return
+	}
+	simrt.Fail(rule, sig, format, args...)
+}
+
 func (w *c16World) checkRestored(r *c16Restored, model map[string]interface{}, rule, what string) {
 	cmp := func(topic string, got, want interface{}) {
 		g, x := c16Canon(got), c16Canon(want)
@@ -845,7 +1135,7 @@ func (w *c16World) checkRestored(r *c16Restored, model map[string]interface{}, r
 				// (checked before): what is on disk now is older than the latest change
 				sig = "latest-change-not-on-disk"
 			}
-			simrt.Fail(rule, sig, "%s: the next start-up yields %s = %s, the latest value published was %s (UnmarshalKey error: %v)",
+			w.fail(rule, sig, "%s: the next start-up yields %s = %s, the latest value published was %s (UnmarshalKey error: %v)",
 				what, topic, c16Short(g), c16Short(x), r.errs[strings.ToLower(topic)])
 		}
 		simrt.Hit("restored:" + topic)
@@ -882,7 +1172,8 @@ func (w *c16World) checkRestored(r *c16Restored, model map[string]interface{}, r
 			want.EdgeMulti = false
 			for _, c := range f.ChannelIndices {
 				if c >= len(r.perChan) {
-					simrt.Fail("harness.restore", "harness:perchan", "channel %d of %d", c, len(r.perChan))
+					w.fail("harness.restore", "harness:perchan", "channel %d of %d", c, len(r.perChan))
+					continue
 				}
 				got := r.perChan[c]
 				if c16Canon(got) != c16Canon(want) {
@@ -890,7 +1181,7 @@ func (w *c16World) checkRestored(r *c16Restored, model map[string]interface{}, r
 					if rule == "C16.saved-latest" {
 						sig = "latest-change-not-on-disk"
 					}
-					simrt.Fail(rule, sig, "%s: PrepareRun gives channel %d the trigger state %s, the latest published one was %s", what, c, c16Canon(got), c16Canon(want))
+					w.fail(rule, sig, "%s: PrepareRun gives channel %d the trigger state %s, the latest published one was %s", what, c, c16Canon(got), c16Canon(want))
 				}
 			}
 		}
@@ -923,11 +1214,11 @@ func (w *c16World) checkRestored(r *c16Restored, model map[string]interface{}, r
 	// transient topics never reach the file
 	for _, t := range c16Transient {
 		if viper.IsSet(strings.ToLower(t)) {
-			simrt.Fail(rule, "transient-topic-saved", "%s: the configuration file contains the transient topic %s: %v", what, t, viper.Get(strings.ToLower(t)))
+			w.fail(rule, "transient-topic-saved", "%s: the configuration file contains the transient topic %s: %v", what, t, viper.Get(strings.ToLower(t)))
 		}
 	}
 	if viper.IsSet("newdastard") || viper.IsSet("sendall") {
-		simrt.Fail(rule, "transient-topic-saved", "%s: the configuration file contains a command (NEWDASTARD/SENDALL)", what)
+		w.fail(rule, "transient-topic-saved", "%s: the configuration file contains a command (NEWDASTARD/SENDALL)", what)
 	}
 }
 
@@ -956,12 +1247,21 @@ func (w *c16World) checkBytes(b []byte, model map[string]interface{}, rule, what
 // ---------------------------------------------------------------------------------
 // C16a
 
+// c16ProcessStateResets are filled by optional harness files (see //verif:requires).
+var c16ProcessStateResets []func()
+
 func c16Setup(env *simrt.Env, startup func() error) *c16World {
 	if startup == nil {
 		simrt.Fail("harness.setup", "harness:no-startup", "no start-up function")
 	}
 	PubRecordsChan = make(chan []*DataRecord, 16)
 	PubSummariesChan = make(chan []*DataRecord, 16)
+	// package-level state of the program must not travel from one simulated run to the next
+	// in the same worker process: a run that ended with the lock held (that is a finding of
+	// that run) would otherwise decide the next one
+	for _, reset := range c16ProcessStateResets {
+		reset()
+	}
 	return &c16World{env: env, startup: startup}
 }
 
@@ -974,24 +1274,176 @@ const c16SaveWait = 10 * time.Second
 var c16Sleeps = []time.Duration{0, time.Millisecond, 100 * time.Millisecond, 2100 * time.Millisecond, 1900 * time.Millisecond, time.Second, 5 * time.Second,
 	20 * time.Second, 45 * time.Second, 61 * time.Second}
 
+// c16CanonJSON is c16Canon for a published message.
+func c16CanonJSON(body string) string {
+	dec := json.NewDecoder(strings.NewReader(body))
+	dec.UseNumber()
+	var g interface{}
+	if err := dec.Decode(&g); err != nil {
+		return "<undecodable: " + err.Error() + ">"
+	}
+	out, _ := json.Marshal(c16Norm(g))
+	return string(out)
+}
+
+// checkAnnounced judges the real start-up (setupViper + RunRPCServer) of a process that
+// started on a directory left by earlier processes: what it announces to clients as its
+// source configurations, record lengths and base path is what the earlier processes saved
+// last. Source configurations that the server had refused when they were set (and saved
+// anyway) are not claimed; everything else in the model is a value a run held.
+func (w *c16World) checkAnnounced(g *c16Gen, model map[string]interface{}, rej map[string]bool, what string) {
+	differs := func(topic, got, want string) {
+		simrt.Fail("C16.restore", "startup-"+strings.ToLower(topic)+"-differs", "%s: the start-up announces %s = %s, the value saved last by the previous run was %s\n(configuration file read by this start-up: %s)",
+			what, topic, c16Short(got), c16Short(want), c16Short(string(g.lastBytes)))
+	}
+	for _, t := range []string{"SIMPULSE", "TRIANGLE", "LANCERO", "ABACO", "ROACH"} {
+		v, ok := model[t]
+		if !ok {
+			continue
+		}
+		body, ann := g.announced[t]
+		want := c16Canon(v)
+		if rej[t] {
+			if ann && c16CanonJSON(body) == want {
+				simrt.Hit("startup-announces-refused-value-unchanged")
+			}
+			continue
+		}
+		if !ann {
+			simrt.Fail("C16.restore", "startup-"+strings.ToLower(t)+"-not-announced", "%s: the start-up does not announce topic %s, saved last as %s (announced: %v)", what, t, c16Short(want), c16Keys(g.announced))
+		}
+		if got := c16CanonJSON(body); got != want {
+			differs(t, got, want)
+		}
+		simrt.Hit("startup-announces:" + t)
+	}
+	if v, ok := model["STATUS"]; ok {
+		st := v.(ServerStatus)
+		body, ann := g.announced["STATUS"]
+		var got ServerStatus
+		if !ann || json.Unmarshal([]byte(body), &got) != nil {
+			simrt.Fail("C16.restore", "startup-status-not-announced", "%s: the start-up does not announce a readable STATUS (%q)", what, c16Short(body))
+		}
+		if got.Npresamp != st.Npresamp || got.Nsamples != st.Nsamples {
+			differs("STATUS", fmt.Sprintf("record lengths [%d %d]", got.Npresamp, got.Nsamples), fmt.Sprintf("[%d %d]", st.Npresamp, st.Nsamples))
+		}
+		simrt.Hit("startup-announces:STATUS")
+	}
+	if v, ok := model["WRITING"]; ok {
+		body, ann := g.announced["WRITING"]
+		var got WritingState
+		if !ann || json.Unmarshal([]byte(body), &got) != nil {
+			simrt.Fail("C16.restore", "startup-writing-not-announced", "%s: the start-up does not announce a readable WRITING (%q)", what, c16Short(body))
+		}
+		if want := v.(*WritingState).BasePath; got.BasePath != want {
+			differs("WRITING", fmt.Sprintf("base path %q", got.BasePath), fmt.Sprintf("%q", want))
+		}
+		simrt.Hit("startup-announces:WRITING")
+	}
+}
+
+func c16Keys(m map[string]string) []string {
+	var out []string
+	for k := range m {
+		out = append(out, k)
+	}
+	sort.Strings(out)
+	return out
+}
+
+// checkAfterFailedSave: the file seen after a save in which one file-system operation
+// failed is the complete file from before or the complete result of one of the saves since.
+func (w *c16World) checkAfterFailedSave(g *c16Gen, sn c16Snap) {
+	what := "file after the save " + sn.what
+	var oldSettings map[string]interface{}
+	if rOld, err := w.evalBytes(sn.old, 0); err == nil {
+		oldSettings = rOld.settings
+	}
+	home := w.newDir("snap")
+	if err := c16RawWrite(c16Main(home), sn.bytes); err != nil {
+		simrt.Fail("harness.fs", "harness:write", "%v", err)
+	}
+	r, err := w.evalDir(home, 0)
+	if err != nil {
+		simrt.Fail("C16.io-failure", "failed-save-leaves-unparseable-file", "%s: the next start-up fails: %v\n%s", what, err, c16Short(string(sn.bytes)))
+	}
+	if oldSettings != nil && c16SameSettings(r.settings, oldSettings) {
+		simrt.Hit("failed-save-leaves-old-version")
+		return
+	}
+	miss := ""
+	for i := len(sn.cand) - 1; i >= 0; i-- {
+		model := g.modelAt(sn.cand[i])
+		r, err := w.evalDir(home, c16TriggerChans(model))
+		if err != nil {
+			simrt.Fail("harness.c16a", "harness:re-eval", "%v", err)
+		}
+		w.soft, w.softMiss = true, ""
+		w.checkRestored(r, model, "C16.io-failure", what)
+		w.soft = false
+		if w.softMiss == "" {
+			simrt.Hit("failed-save-leaves-new-version")
+			return
+		}
+		if miss == "" {
+			miss = w.softMiss
+		}
+	}
+	simrt.Fail("C16.io-failure", "failed-save-leaves-neither-old-nor-new", "%s: the file (%d bytes) is neither the file from before (%d bytes) nor the complete result of a save since (%s):\n%s",
+		what, len(sn.bytes), len(sn.old), miss, c16Short(string(sn.bytes)))
+}
+
+// setupCringe gives the run its ~/.cringe/cringeGlobals.json (read by the Lancero source's
+// Configure): absent, valid, or with a sample count the source refuses.
+func (w *c16World) setupCringe() {
+	cringeGlobalsPath = filepath.Join(w.env.Dir, "cringe", "cringeGlobals.json")
+	k := simrt.Draw(4)
+	if k == 1 {
+		w.env.Op("no cringeGlobals.json")
+		return
+	}
+	nsamp := 1 + simrt.Draw(16)
+	if k == 3 {
+		nsamp = 17 + simrt.Draw(3)
+	}
+	txt := fmt.Sprintf(`{"SETT": %d, "seqln": %d, "lsync": %d, "testpattern": 0, "propagationdelay": %d, "NSAMP": %d, "carddelay": %d, "XPT": 0}`,
+		simrt.Draw(64), 1+simrt.Draw(64), 20+simrt.Draw(200), simrt.Draw(16), nsamp, simrt.Draw(16))
+	w.env.Op("cringeGlobals.json = %s", txt)
+	c16RawWrite(cringeGlobalsPath, []byte(txt))
+}
+
 // C16aBody is one run of the histories check.
 func C16aBody(env *simrt.Env, startup func() error) {
 	w := c16Setup(env, startup)
 	defer w.cleanup()
+	w.setupCringe()
 	home := w.newDir("home")
 	if simrt.Draw(3) == 1 {
 		c16RawMkdirAll(c16Dot(home)) // the directory exists, the file does not
 	}
 	model := map[string]interface{}{}
+	rej := map[string]bool{}
 	ngen := 1 + simrt.Draw(2)
 	sample := map[string]interface{}{}
 	totalUpdates, totalSendall := 0, 0
-	for gi := 0; gi < ngen; gi++ {
-		env.Op("process %d starts on %s", gi, filepath.Base(home))
+	// processes 0 … ngen-1 receive updates; process ngen is the plain next run of the last one
+	for gi := 0; gi <= ngen; gi++ {
+		env.Op("process %d starts on %s (setupViper, RunClientUpdater, RunRPCServer)", gi, filepath.Base(home))
 		g := w.startProcess(home, model)
+		g.baseRej = rej
+		g.startServer()
+		if gi > 0 {
+			w.checkAnnounced(g, model, rej, fmt.Sprintf("process %d, started on the directory left by process %d", gi, gi-1))
+		}
 		n := 5 + simrt.Draw(56)
 		if gi > 0 {
 			n = 1 + simrt.Draw(20)
+		}
+		if gi == ngen {
+			n = 0
+		}
+		if env.Faulted() && n > 0 && simrt.Chance(1, 2) {
+			g.ioFault()
 		}
 		prev := map[string]interface{}{}
 		for i := 0; i < n; i++ {
@@ -1003,6 +1455,9 @@ func C16aBody(env *simrt.Env, startup func() error) {
 			switch k := simrt.Draw(12); {
 			case k <= 6:
 				tag := c16DrawTopic()
+				if tag == "ALIVE" {
+					tag = "TRIGGERRATE" // the server's own heartbeat publishes ALIVE
+				}
 				var st interface{}
 				if p, ok := prev[tag]; ok && simrt.Draw(4) == 1 {
 					st = p // the same value again
@@ -1033,32 +1488,46 @@ func C16aBody(env *simrt.Env, startup func() error) {
 		g.sendAll()
 		totalSendall++
 		// The process lives on for a while after the last change, then exits.
-		tail := []time.Duration{c16SaveWait, c16SaveWait + 5*time.Second, c16SaveWait, 61 * time.Second, 125 * time.Second}
+		tail := []time.Duration{c16SaveWait, c16SaveWait + 5*time.Second, c16SaveWait, 61 * time.Second}
 		d := tail[simrt.Draw(len(tail))]
-		env.Op("sleep %v, then the process exits", d)
+		env.Op("sleep %v", d)
 		time.Sleep(d)
 		g.look(fmt.Sprintf("process %d, final", gi))
 		simrt.Unstall()
+		if g.plan != nil && g.plan.Fired {
+			// The failure is over. What it kept from the disk gets there with the next save,
+			// which the next change brings; and clients are still served.
+			simrt.Fault("ioerr-during-save")
+			it := c16Item{tag: "STATELABEL", state: fmt.Sprintf("after the failed operation, process %d", gi)}
+			env.Op("the planned operation (%s) has failed; update %s, sleep %v, SENDALL", c16FailedOp(g.plan), it, c16SaveWait)
+			g.feed(it)
+			time.Sleep(c16SaveWait)
+			g.look(fmt.Sprintf("process %d, after the failed operation", gi))
+			g.sendAll()
+			totalSendall++
+		}
+		env.Op("process %d exits", gi)
 		g.quiesce()
 		g.stop()
 		if g.nPub != len(g.fed) {
 			simrt.Fail("C16.publish", "update-not-published", "%d updates, %d publications", len(g.fed), g.nPub)
 		}
-		// oracle 2 on the files kept after completed saves (the last four)
-		snaps := g.snaps
-		if len(snaps) > 4 {
-			snaps = snaps[len(snaps)-4:]
-		}
-		for _, s := range snaps {
-			w.checkBytes(s.bytes, g.modelAt(s.nPub), "C16.save-content", "file written by the save "+s.what)
+		// oracle 2 on the files kept after saves (the last four, and the one after a failed operation)
+		for i, sn := range g.snaps {
+			if sn.old != nil {
+				w.checkAfterFailedSave(g, sn)
+			} else if i >= len(g.snaps)-4 {
+				w.checkBytes(sn.bytes, g.modelAt(sn.nPub), "C16.save-content", "file written by the save "+sn.what)
+			}
 		}
 		if len(g.saves) == 0 {
 			simrt.Fail("C16.saved-latest", "no-save", "process %d lived %v and never saved its configuration", gi, time.Since(g.startAt))
 		}
 		model = g.modelAt(len(g.fed))
+		rej = g.rejAt(len(g.fed))
 		// the bounded-delay rule: the directory the process leaves behind has everything
-		w.checkHome(home, model, "C16.saved-latest", fmt.Sprintf("directory left by process %d, which exited %v after its last update", gi, d))
-		sample[fmt.Sprintf("process%d", gi)] = map[string]interface{}{"updates": len(g.fed), "saves": len(g.saves), "topics": len(g.lastPub)}
+		w.checkHome(home, model, "C16.saved-latest", fmt.Sprintf("directory left by process %d, which exited %v after its last update", gi, c16SaveWait))
+		sample[fmt.Sprintf("process%d", gi)] = map[string]interface{}{"updates": len(g.fed), "saves": len(g.saves), "topics": len(g.lastPub), "announced": len(g.announced)}
 	}
 	if w.nTickerSaves > 0 && w.nTimerSaves > 0 {
 		simrt.Hit("both-save-triggers-in-one-run")
